@@ -17,12 +17,14 @@ RULE = ("objects for the five machines write_elf maps (x86_64, arm, riscv, xtens
         "geometry relative to the page, symbol-kind pattern, relocation pattern, verdict)")
 ASSUMPTIONS = [
     "readers: llvm-readobj 14 (--elf-output-style=JSON for headers/sections/symbols/program headers, LLVM-style -r --expand-relocs for relocations) and GNU "
-    "readelf -hSsrlW; a file is accepted when both exit 0 with empty stderr; GNU objdump -s is a third reader of section contents where BFD recognises the file",
+    "readelf -hSsrlW; a file is accepted when neither prints a diagnostic; a file readelf rejects is reported and not shown to llvm-readobj; GNU objdump -s "
+    "is a third reader of section contents where BFD recognises the file",
     "the expected view is taken from the ppci ObjectFile that was written (sections, symbols, relocations, images, entry symbol); for executables this is the "
     "object ppci's own linker produced (linking itself is C12/C11's subject)",
     "a violation of an equality is reported when both readers show it; a difference seen by one reader only is counted as unclassified",
     "expected ELF constants are written down here from the gABI / psABI (machine numbers, R_X86_64_* numbers, header sizes), not taken from ppci",
-    "write_elf raising NotImplementedError (relocations on non-x86_64 machines) and UnicodeEncodeError (non-ASCII names) are refusals: counted, not reported; "
+    "write_elf raising NotImplementedError (relocations on non-x86_64 machines), KeyError in get_reloc_type (x86_64 relocation type without an ELF number: "
+    "absaddr32, absaddr16, jmp8) and UnicodeEncodeError (non-ASCII names) are refusals: counted, not reported; "
     "any other exception while writing is reported as an internal error",
     "section alignment, section flags and segment flags are not compared (the property does not constrain them); PT_LOAD ordering is not demanded",
     "x86-64 relocatables from C sources are additionally linked with `gcc -no-pie` against a driver and run; results are compared with the same source compiled by gcc",
@@ -168,11 +170,11 @@ C_SOURCES = [
     ("strings", "int h(int); const char *m = \"xyz\"; int f(int a) { return m[a % 3] + h(a); }"),
 ]
 ASM_SOURCES = {
-    "x86_64": "section code\nglobal start\nstart:\nmov rax, 60\nlocal_lab:\njmp start\ncall other\nsection data\nother:\ndq 0x1122334455667788\ndq start\n",
+    "x86_64": "section code\nglobal start\nstart:\nmov rax, 60\nlocal_lab:\njmp start\ncall other\nsection data\nother:\ndq 0x1122334455667788\ndq =start\n",
     "arm": "section code\nglobal start\nstart:\nmov r0, 1\nmov r1, r0\nsection data\ndd 0x11223344\ndb 7\n",
     "riscv": "section code\nglobal start\nstart:\nadd x1, x2, x3\nsection data\ndd 0x11223344\n",
     "xtensa": "section code\nglobal start\nstart:\nnop\nsection data\ndd 0x11223344\n",
-    "microblaze": "section code\nglobal start\nstart:\nadd r1, r2, r3\nsection data\ndd 0x11223344\n",
+    "microblaze": "section code\nglobal start\nstart:\nadd r1, r2, r3\nadd r3, r2, r1\n",
 }
 SRC_LAYOUT = "MEMORY code LOCATION=0x401000 SIZE=0x10000 { SECTION(code) }\nMEMORY ram LOCATION=0x602000 SIZE=0x10000 { SECTION(data) }\n"
 DRIVER = ("#include <stdio.h>\nint f(int);\nint h(int x) { return 3 * x + 1; }\n"
@@ -207,10 +209,12 @@ def make_object(case):
         objs = [G.build(o) for o in case["objs"]]
         return link(objs, layout=G.build_layout(case["layout"]), extra_symbols=case.get("extra")), "exe"
     from ppci import api
-    if case["lang"] == "c":
-        o = api.cc(io.StringIO(case["source"]), case["arch"])
-    else:
-        o = api.asm(io.StringIO(case["source"]), case["arch"])
+    import contextlib
+    with contextlib.redirect_stdout(io.StringIO()):     # ppci prints its diagnostics
+        if case["lang"] == "c":
+            o = api.cc(io.StringIO(case["source"]), case["arch"])
+        else:
+            o = api.asm(io.StringIO(case["source"]), case["arch"])
     if case["ftype"] == "rel":
         return o, "rel"
     lay = SRC_LAYOUT
@@ -443,22 +447,30 @@ def judge_batch(p, cases, d, only_key=None):
             continue
         except Exception as ex:  # noqa
             key = exc_key("write-crash", ex)
+            if isinstance(ex, KeyError) and key.endswith(":get_reloc_type"):
+                # a relocation type without an ELF number on this machine: the same refusal as NotImplementedError, by another exception
+                p.count("refused_unmapped_relocation_type")
+                p.collect("unmapped_relocation_types", "%s:%s" % (case["arch"], ex.args[0] if ex.args else "?"))
+                p.outcome((case["arch"], ftype, "refused", "unmapped"))
+                continue
             if only_key in (None, key):
                 p.violation(key, "write_elf(%s, %s) raised %r (%s)" % (case["arch"], ftype, ex, case["label"]), wit)
             p.outcome((case["arch"], ftype, "crash", type(ex).__name__))
             continue
         todo.append((case, o, ftype, path))
     paths = [t[3] for t in todo]
-    lv = E.llvm_readobj(paths)
+    # readelf first (its diagnostics are attributed in one pass); what it rejects is reported and not shown to the other readers
     rv = E.readelf(paths)
-    ov = E.objdump_contents(paths)
+    lv = E.llvm_readobj([q for q in paths if rv[q]["ok"]])
+    ov = E.objdump_contents([q for q in paths if rv[q]["ok"] and lv[q]["ok"]])
+    skipped = {"ok": True, "diag": "", "contents": {}}
     for case, o, ftype, path in todo:
         data = open(path, "rb").read()
         p.count("files_written")
         p.count("files_%s_%s" % (case["arch"], ftype))
-        a, b, c = lv[path], rv[path], ov[path]
+        a, b, c = lv.get(path, skipped), rv[path], ov.get(path, {"ok": False})
         rejected = False
-        for tool, v in (("llvm-readobj", a), ("readelf", b)):
+        for tool, v in (("readelf", b), ("llvm-readobj", a)):
             if not v["ok"]:
                 rejected = True
                 key = diag_class(tool, v["diag"])
